@@ -24,6 +24,7 @@ type G struct {
 	resume chan int
 	kids   int
 	Prio   int // scheduling class, see Sim.Candidates
+	State  string // running | parked | blocked | done
 }
 
 // PanicInfo records a panic that escaped a managed goroutine.
@@ -53,6 +54,7 @@ type Sim struct {
 	YieldPct map[string]int
 	Trace    func(string) // optional debug log; must not draw or read real clocks
 	nG       int64
+	all      map[string]*G
 }
 
 // Active is the running simulation, nil for pass-through.
@@ -64,7 +66,7 @@ func New(ch *Chooser) *Sim {
 	return &Sim{root: root,
 		parked: map[string]*G{}, sig: make(chan struct{}, 1), dieCh: make(chan struct{}),
 		cur: root, dead: map[string]bool{}, stalled: map[string]bool{}, Ch: ch,
-		YieldPct: map[string]int{},
+		YieldPct: map[string]int{}, all: map[string]*G{},
 	}
 }
 
@@ -92,7 +94,9 @@ func (s *Sim) park(g *G, site string) {
 		runtime.Goexit()
 	}
 	g.Site = site
+	g.State = "parked"
 	if g.Tag != "" && s.dead[g.Tag] {
+		g.State = "frozen"
 		s.frozen = append(s.frozen, g)
 		s.mu.Unlock()
 		if <-g.resume != 0 {
@@ -141,6 +145,7 @@ func (s *Sim) Release(g *G) {
 	s.mu.Unlock()
 	s.cur = g
 	s.Steps++
+	g.State = "running"
 	g.resume <- 0
 }
 
@@ -332,6 +337,7 @@ func (s *Sel) Do(site string, hasDefault bool, cases ...Case) int {
 		scs[i] = reflect.SelectCase{Dir: c.dir, Chan: c.ch, Send: c.val}
 	}
 	scs[n] = reflect.SelectCase{Dir: reflect.SelectRecv, Chan: reflect.ValueOf(sim.dieCh)}
+	g.Site, g.State = site, "blocked"
 	idx, v, ok := reflect.Select(scs)
 	if idx == n {
 		runtime.Goexit()
@@ -423,7 +429,15 @@ func (sim *Sim) spawn(site, tag string, f func()) {
 	p.kids++
 	sim.nG++
 	g := &G{ID: p.ID + "/" + strconv.Itoa(p.kids), Tag: tag, resume: make(chan int)}
+	sim.mu.Lock()
+	sim.all[g.ID] = g
+	sim.mu.Unlock()
 	go func() {
+		defer func() {
+			sim.mu.Lock()
+			delete(sim.all, g.ID)
+			sim.mu.Unlock()
+		}()
 		defer func() {
 			if r := recover(); r != nil {
 				if sim.dying {
@@ -446,6 +460,18 @@ func (sim *Sim) spawn(site, tag string, f func()) {
 		sim.park(g, "start:"+site)
 		f()
 	}()
+}
+
+// Dump lists every live managed goroutine: id, owner, state, site (for debugging).
+func (s *Sim) Dump() []string {
+	s.mu.Lock()
+	defer s.mu.Unlock()
+	var out []string
+	for _, g := range s.all {
+		out = append(out, fmt.Sprintf("%-28s %-8s %-8s %s", g.ID, g.Tag, g.State, g.Site))
+	}
+	sort.Strings(out)
+	return out
 }
 
 // NumGoroutines is the number of managed goroutines created so far.
